@@ -28,6 +28,7 @@ pub fn gen_text(t: &mut Tape, tier: Tier, profile: Profile) -> Value {
       budget,
       non_ascii: t.bool(1, 10),
       long_lines: false,
+      long_idents: false,
     },
     Profile::Comments => SynCfg {
       layout: if t.bool(1, 5) { Layout::Wild } else { Layout::Plain },
@@ -35,6 +36,7 @@ pub fn gen_text(t: &mut Tape, tier: Tier, profile: Profile) -> Value {
       budget,
       non_ascii: t.bool(1, 8),
       long_lines: false,
+      long_idents: false,
     },
     Profile::Layout => SynCfg {
       layout: if t.bool(1, 10) { Layout::Plain } else { Layout::Wild },
@@ -42,6 +44,7 @@ pub fn gen_text(t: &mut Tape, tier: Tier, profile: Profile) -> Value {
       budget,
       non_ascii: t.bool(1, 2),
       long_lines: t.bool(1, 6),
+      long_idents: false,
     },
   };
   let text = gen_module(t, cfg);
